@@ -44,9 +44,18 @@ Init ==
     /\ elapsed = 0
     /\ pos = 1 /\ iters = 0 /\ status = "idle" /\ ncall = 0 /\ results = <<>>
 
+NextIsSnapshot == ncall < Len(sc.calls) /\ sc.calls[ncall + 1] = "snapshot"
+
+\* saving the authorizer and continuing with the restored copy: evaluates nothing and keeps the whole
+\* budget state - facts, passes performed, exhaustion
+Snapshot ==
+    /\ status \in {"idle", "exhausted"} /\ NextIsSnapshot
+    /\ results' = Append(results, "ok") /\ ncall' = ncall + 1
+    /\ UNCHANGED <<sc, pos, iters, status, elapsed>>
+
 \* a call starts (or resumes) the evaluation
 StartCall ==
-    /\ status = "idle" /\ ncall < Len(sc.calls)
+    /\ status = "idle" /\ ncall < Len(sc.calls) /\ ~NextIsSnapshot
     /\ status' = "running"
     /\ UNCHANGED <<sc, pos, iters, ncall, results, elapsed>>
 
@@ -80,10 +89,10 @@ ReturnLimit ==
 
 \* every call on an exhausted authorizer fails at once, without evaluating anything
 FailFast ==
-    /\ status = "exhausted" /\ ncall < Len(sc.calls)
+    /\ status = "exhausted" /\ ncall < Len(sc.calls) /\ ~NextIsSnapshot
     /\ Finish("limit", "exhausted")
 
-Next == StartCall \/ Pass \/ ReturnOk \/ ReturnLimit \/ FailFast
+Next == StartCall \/ Pass \/ ReturnOk \/ ReturnLimit \/ FailFast \/ Snapshot
 Spec == Init /\ [][Next]_vars
 
 Done == ncall = Len(sc.calls)
@@ -93,12 +102,12 @@ Done == ncall = Len(sc.calls)
 (***************************************************************************)
 \* success only within the budgets, cumulatively
 OkWithinBudget ==
-    \A i \in 1..Len(results) : results[i] = "ok" => (iters <= sc.mi /\ Facts <= sc.mf)
+    \A i \in 1..Len(results) : (results[i] = "ok" /\ sc.calls[i] # "snapshot") => (iters <= sc.mi /\ Facts <= sc.mf)
 NeverOverIter == iters <= sc.mi
 \* nothing happens after exhaustion
 ExhaustedIsFinal ==
     \A i \in 1..Len(results) : \A j \in 1..Len(results) :
-        (i < j /\ results[i] = "limit") => results[j] = "limit"
+        (i < j /\ results[i] = "limit" /\ sc.calls[j] # "snapshot") => results[j] = "limit"
 \* no stuck state: a running call can always make a step
 NoStuck == status = "running" => (ENABLED Pass \/ ENABLED ReturnOk \/ ENABLED ReturnLimit)
 
@@ -118,5 +127,7 @@ IterLims == {0, 1, 2, 3, 5, 1000}
 Calls1 == {<<"authorize">>, <<"run">>, <<"query">>}
 Calls3 == {<<"authorize">>, <<"run", "authorize">>, <<"authorize", "authorize", "authorize">>,
            <<"run", "query", "authorize">>, <<"query_all", "authorize">>, <<"authorize", "query">>,
-           <<"run", "run", "run", "authorize">>}
+           <<"run", "run", "run", "authorize">>,
+           <<"snapshot", "authorize">>, <<"authorize", "snapshot", "authorize">>, <<"run", "snapshot", "run", "authorize">>,
+           <<"query", "snapshot", "snapshot", "authorize">>}
 =============================================================================
